@@ -31,7 +31,9 @@ GEN_CELL_CAP = 3500
 # includes pairs that differ only by Unicode normalisation form (different strings, hence different names),
 # by trailing/inner white space, and by case
 NAME_POOL = ["Data", "data", "Summary", "Σ", "Table 1", "Table 2", "table 3", "Sheet 2", "Ünïcode", "A", "", "x y", "tab\tname", "名前",
-             "Caf\u00e9", "Cafe\u0301", "\u00c5", "\u212b", "A\u030a", "Data ", " Data", "x  y", "\u1e9e", "SS"]
+             "Caf\u00e9", "Cafe\u0301", "\u00c5", "\u212b", "A\u030a", "Data ", " Data", "x  y", "\u1e9e", "SS",
+             # characters whose case-folded form differs from their lower-case form, or whose lower-case form is longer
+             "Stra\u00dfe", "stra\u00dfe", "\ufb01n", "\u03c3\u03af\u03c3\u03c5\u03c6\u03bf\u03c2", "\u0130", "\u01f0"]
 
 
 def pick_shape(rng, cls=None):
@@ -147,12 +149,61 @@ def gen_enumerated(seed: int, tier: str, j: int):
     return cfg, g.ops
 
 
+def gen_bulky_same_size(seed: int, tier: str):
+    """One Document object saved several times with edits in between that keep every size the same: a table whose
+    text archive exceeds 64 KiB (one compression chunk) gets late cells replaced by other text of equal encoded length,
+    numbers replaced by numbers, two texts swapped - anything that remembers 'unchanged' by size, by a prefix or by a
+    count shows up in the second file."""
+    rng = substream(seed, "bulky")
+    cfg = {"property": PROPERTY, "aspects": ["grid", "names"], "profile": "grid", "_mix": {"s": 1}, "_long": False, "stratum": "bulky_same_size"}
+    g = Gen(seed, tier, cfg)
+    rows, cols = rng.randint(12, 30), rng.randint(2, 4)
+    g.emit({"op": "new_doc", "rows": rows, "cols": cols, "hr": rng.choice([0, 1]), "hc": rng.choice([0, 1])})
+    if rng.random() < 0.5:
+        g.emit({"op": "add_table", "d": 0, "s": 0, "rows": rows, "cols": cols, "hr": 0, "hc": 0})
+    t = len(g.ms.docs[0].model.sheets[0].tables) - 1
+    width = rng.choice([1200, 4000, 6000])
+    alphabet = "abcdefghijklmnopqrstuvwxyz0123456789"
+
+    def text(tag):
+        r2 = substream(seed, f"bulky-text-{tag}")
+        return f"{tag:04d}-" + "".join(r2.choice(alphabet) for _ in range(width))
+
+    for r in range(rows):
+        g.emit({"op": "write", "d": 0, "s": 0, "t": t, "r": r, "c": 0, "v": V.enc(text(r))})
+        g.emit({"op": "write", "d": 0, "s": 0, "t": t, "r": r, "c": 1, "v": V.enc(r * 1.5)})
+    slots = list(ALL_SLOTS)
+    rng.shuffle(slots)
+    g.emit({"op": "save", "d": 0, "slot": slots[0]})
+    tag = 5000
+    for cycle in range(rng.randint(2, 4)):
+        for _ in range(rng.randint(1, 3)):
+            k = rng.random()
+            r = rng.choice([rows - 1, rows - 2, rng.randrange(rows)])
+            if k < 0.6:
+                tag += 1
+                g.emit({"op": "write", "d": 0, "s": 0, "t": t, "r": r, "c": 0, "v": V.enc(text(tag))})
+            elif k < 0.8:
+                g.emit({"op": "write", "d": 0, "s": 0, "t": t, "r": r, "c": 1, "v": V.enc(float(rng.randint(100, 999)))})
+            else:
+                r2 = rng.randrange(rows)
+                g.emit({"op": "write", "d": 0, "s": 0, "t": t, "r": r, "c": 0, "v": V.enc(text(r2))})
+                g.emit({"op": "write", "d": 0, "s": 0, "t": t, "r": r2, "c": 0, "v": V.enc(text(r))})
+        slot = slots[(cycle + 1) % len(slots)] if rng.random() < 0.6 else slots[0]
+        g.emit({"op": "save", "d": 0, "slot": slot})
+        g.emit({"op": "restart", "d": 0, "slot": slot, "replace": False})
+        g.emit({"op": "drop", "d": 1})
+    return cfg, g.ops
+
+
 def gen(seed: int, tier: str, idx=None):
     if tier == "thorough" and idx is not None and idx < ENUM_TOTAL:
         # thorough starts by executing EVERY history of the bounded space once (shape variant 0), then samples
         return gen_enumerated(seed, tier, idx)
     if idx is not None and idx % 3 == 0:
         return gen_enumerated(seed, tier, ENUM_TOTAL + idx // 3 if tier == "thorough" else idx // 3)
+    if idx is not None and idx % 25 == 7:
+        return gen_bulky_same_size(seed, tier)
     rng0 = substream(seed, "swarm")
     cfg = {"property": PROPERTY, "aspects": ["grid", "names"], "profile": "grid"}
     # every 2nd/3rd operation (or none) reaches its table through sheets[name].tables[name] instead of by index
